@@ -94,6 +94,18 @@ def gen_cases(tier):
                         h += [["set_keys_bad", 0, how], ["get_many", 0, "pair"]]
                     h += [["set_keys", 0], ["get", 0, "sys"], ["set_keys_bad", 0, combo[0]], ["refresh", 0], ["getnext", 0, "sys"]]
                     yield {"class": "refused-set-keys", "cfgs": [cfg.describe()], "history": h, "force_salt": WRAP_STARTS[priv][0]}
+    # several privacy sessions in one process, sends interleaved, keys (re)installed on one while the others run:
+    # every session's counter is its own
+    for pa, pb in ((1, 1), (2, 2), (1, 2)):
+        a = Cfg("v3", auth=2, priv=pa)
+        b = Cfg("v3", auth=1, priv=pb, user="second", priv_pass=b"another-pass")
+        c = Cfg("v3", auth=2, priv=pa, user="third")
+        for order in itertools.product((0, 1), repeat=4):
+            h = [["get", 0, "sys"], ["get", 1, "sys"]]
+            for s_ in order:
+                h.append(["get_many", s_, "pair"])
+            h += [["set_keys", 2], ["get", 0, "sys"], ["get", 2, "sys"], ["set_keys", 1], ["getnext", 0, "sys"], ["get", 1, "sys"], ["refresh", 0]]
+            yield {"class": "sessions-interleaved", "cfgs": [a.describe(), b.describe(), c.describe()], "history": h, "force_salt": None}
     # two sessions with the same credentials keep separate counters but each is unique on its own
     a = Cfg("v3", auth=2, priv=2)
     yield {
@@ -104,7 +116,28 @@ def gen_cases(tier):
     }
 
 
+def work_public(chunk):
+    """Public `User` with an empty privacy password: whatever the session does with it, no request may leave in clear."""
+    from . import c12
+
+    res = common.Result()
+    for case in chunk:
+        outcome, clear = c12.empty_priv_password_case(case)
+        res.count("cases")
+        res.count("api_calls", 2)
+        res.distinct()
+        res.outcome("empty-priv-password")
+        if clear:
+            res.violation("public/empty-priv-password: request sent without privacy", "%s (calls ended with %s)" % (clear[0], outcome), case)
+    return res
+
+
 def replay(case):
+    if case.get("empty_priv"):
+        from . import c12
+
+        common.prepare_stage()
+        return {"result": c12.empty_priv_password_case(case)}
     return histcheck.replay(case, CLAUSES, use_salt_oracle=True)
 
 
@@ -114,7 +147,7 @@ def run(tier):
     rec = common.Recorder(PROPERTY, tier, LEVEL, MODULE)
     rec.rule = (
         "every interleaving of %d leading steps over {5 request types, reply with boots change, garbage, time-out, set_keys, refused set_keys, refused over-sized request} followed by a fixed "
-        "tail, per cipher and salt start (next to wrap-around via the RNG seam); long mixed runs; discovery+set_keys; two sessions. "
+        "tail, per cipher and salt start (next to wrap-around via the RNG seam); long mixed runs; discovery+set_keys; two or three privacy sessions with interleaved sends and key installations in between. "
         "evaluations = datagrams whose msgPrivacyParameters/flags/clear text were examined." % (5 if tier == "thorough" else 4)
     )
     rec.assume(
@@ -124,4 +157,6 @@ def run(tier):
     if not hasattr(fast, "_verif_rng_force"):
         rec.cap("RNG seam absent: wrap-around of the salt counter not forced")
     common.run_cases(rec, work, list(gen_cases(tier)), chunk=50)
+    pub = [{"empty_priv": True, "auth": a, "priv": p, "discover": d, "kt": 0, "klen": 0} for a, p, d in itertools.product((1, 2), (1, 2), (False, True))]
+    common.run_cases(rec, work_public, pub, chunk=2)
     return histcheck.finish(rec)
